@@ -10,7 +10,7 @@ FUNCTIONS = ['flowdyn.modelphy.euler.euler1d.bc_{sym,insub,insub_cbc,insup,outsu
              'flowdyn.modelphy.euler.euler.{prim2cons,ptot,rttot,pressure,asound,entropy} (used to evaluate the returned state)']
 BOUNDS = ('one boundary face, interior state symbolic admissible (any Mach number), parameters ptot, rttot, p symbolic > 0 inside '
           "each condition's documented regime (p <= ptot for total-pressure inlets/outlets), dir in {-1,+1} (1D) / the four "
-          'sides with the normals supplied by the real mesh2d (2D), gamma = 2 (quick) and 7/5 (thorough); call sites on a '
+          'sides with the normals supplied by the real mesh2d (2D), gamma = 2 (quick; 7/5 in the quick tier only as a bounded search with a 3 s solver timeout) and 7/5 (thorough); call sites on a '
           '3-cell 1D mesh and a 2x2 grid')
 OUTSIDE = ('gamma other than the listed values; the inflow sign of insub_cbc (depends on the interior state, only its compatible '
            'fixed point is asserted, in C03); float round-off')
@@ -40,6 +40,14 @@ def configs(tier):
     for g in gs:
         out.append({'model': 'euler1d', 'bc': 'callsite', 'gamma': g})
         out.append({'model': 'euler2d', 'bc': 'callsite', 'gamma': g})
+    if tier == 'quick':
+        # gamma = 2 makes the exponents 1/(gamma-1) and gamma/(gamma-1) trivial (1 and 2): the quick tier also runs gamma = 7/5 with a
+        # short solver timeout - a bounded search for violations (simulation-guided models, replayed); the proofs are in the thorough tier
+        for bc in BC1D:
+            for dr in (-1, 1):
+                out.append({'model': 'euler1d', 'bc': bc, 'dir': dr, 'gamma': '7/5', 'timeout_ms': 3000, 'sweep_budget_s': 10, 'guided_tries': 300})
+        for bc in ('insub', 'insup', 'insup-angle', 'outsub'):
+            out.append({'model': 'euler2d', 'bc': bc, 'side': 'top', 'gamma': '7/5', 'timeout_ms': 3000, 'sweep_budget_s': 10, 'guided_tries': 300})
     return out
 
 
